@@ -547,7 +547,7 @@ func runC10(c *core.Ctx) {
 	c10BandOrder(c)
 	c10Setup()
 	decs := c10Decoders()
-	per := c.N(120, 20000)
+	per := c.N(120, 100000)
 	for di, d := range decs {
 		for k := int64(0); k < per; k++ {
 			idx := int64(di)*1000000 + k
@@ -562,13 +562,13 @@ func runC10(c *core.Ctx) {
 	if c.Batch == 0 {
 		c.Res().Counters["max.decoder-types"] = int64(len(decs))
 	}
-	m := c.N(3000, 300000)
+	m := c.N(3000, 3000000)
 	for i := int64(0); i < m; i++ {
 		if c.Mine("readonly", i) {
 			c10ReadOnly(c, c.RNG("readonly", i))
 		}
 	}
-	reps := int(c.N(1, 40))
+	reps := int(c.N(1, 400))
 	for rep := 0; rep < reps; rep++ {
 		for ln := 0; ln <= 64; ln++ {
 			for al := 0; al < 16; al++ {
@@ -583,7 +583,7 @@ func runC10(c *core.Ctx) {
 		c.Exhaustive("guards: every length 0..64 x alignment 0..15")
 	}
 	cfgs := allBandCfgs()
-	hist := c.N(6, 400)
+	hist := c.N(6, 3000)
 	for ci, cfg := range cfgs {
 		for h := int64(0); h < hist; h++ {
 			idx := int64(ci)<<20 | h
